@@ -179,7 +179,7 @@ def build(x):
     f.add_loop_spec(1, OUTER.replace('REPCOND', 'rep is Unlimited'))
     f.add_loop_spec(3, OUTER.replace('REPCOND', 'rep matches Replication::Limited(n0) && remaining as int == n0 as int - sp_assigned(rep, cores, __h as int)'))
     f.add_loop_spec(5, OUTER.replace('REPCOND', 'rep is Host'))
-    for nth, (nexpr, hexpr) in enumerate([('host_info.num_cores', '__h as int - 1'), ('@{n}', '__h as int - 1'), ('1', '__h as int - 1'), ('1', '0')], start=1):
+    for nth, (nexpr, hexpr) in enumerate([('host_info.num_cores', '__h as int - 1'), ('§n§', '__h as int - 1'), ('1', '__h as int - 1'), ('1', '0')], start=1):
         f.insert_before('let host_replicas = replicas.entry_or_default(', '''let ghost ids0 = global_ids@;
                 let ghost reps0 = replicas@;
                 let ghost hh: int = (%s) as int;
@@ -225,6 +225,6 @@ def build(x):
                 }'''
     for ordinal in [7, 6, 4, 2]:
         f.insert_after_loop(ordinal, gc(AFTER))
-    for ordinal, endx, hosteq in [(2, 'host_info.num_cores', 'host_id as int == hh'), (4, '@{n}', 'host_id as int == hh'), (6, '1u64', 'host_id as int == hh'), (7, '1u64', 'hh == 0')]:
+    for ordinal, endx, hosteq in [(2, 'host_info.num_cores', 'host_id as int == hh'), (4, '§n§', 'host_id as int == hh'), (6, '1u64', 'host_id as int == hh'), (7, '1u64', 'hh == 0')]:
         f.add_loop_spec(ordinal, INNER.replace('ENDEXPR', endx).replace('HOSTEQ', hosteq))
     return [PRELUDE, rep, c, "impl Coord {", cn, "}", "impl Scheduler {", f, "}"]
